@@ -380,6 +380,7 @@ type c07Scn struct {
 	files [][]byte // timing: sfile, vfile0, vfile1…
 	tw    []*c07TimWf
 	out   []string
+	ext   *c07Ext // state of the ops of c07_disp.go
 }
 
 func c07KV(f []string, k string) string {
@@ -423,6 +424,9 @@ func runC07Scenario(r *Run, ops []string, kind string) {
 			return
 		}
 		c := &cu.ComputeUnit{}
+		if c07KV(hdr, "cu") == "full" { // a compute unit from the real builder (c07_disp.go: scalar unit, ports)
+			c = c07FullCU()
+		}
 		sf := cu.NewSimpleRegisterFile(c07SFileBytes, 0)
 		c.SRegFile = sf
 		sc.files = append(sc.files, sf.VerifStorage())
@@ -623,6 +627,9 @@ func (sc *c07Scn) op(f []string) {
 			wf = sc.tw[w].wf
 		}
 		sc.out = append(sc.out, c07Access(wf, f))
+		return
+	case "new", "disp", "init", "smem", "retire": // c07_disp.go
+		sc.opDisp(f)
 		return
 	case "r", "w", "rb", "wb":
 	default:
